@@ -394,8 +394,22 @@ def check_illcond(case):
     nb = ref.fro(b)
     keff = ref.fro(A) * max(ref.fro(x), ref.fro(case["xt"])) / nb + 1.0
     floor = 1e3 * n * U_ * keff
+    if rr > max(tol * (1 + 1e-6), floor):
+        # The property fixes every cycle's iterate (the minimiser over its Krylov space), and for ill-conditioned
+        # non-normal systems those iterates can be far larger than the solution (||x_c|| up to ||r_c|| / sigma_min).
+        # The last cycle then has to cancel x_{n-1} down to x, which no update x_{c+1} = x_c + correction can do
+        # below u ||A|| ||x_c||: the rounding floor of the restarted method carries the LARGEST iterate, not the
+        # final one (false-alarm log 8.3 item 13).  The intermediate iterates are read off capped runs.
+        grow = ref.fro(x)
+        for c in range(0, n - 1):
+            okc, rc = out.call(site + f"[cap={c}]", solve, A, b, tol, c, None, case["sparse"])
+            if okc and rc[0].shape == b.shape and np.all(np.isfinite(rc[0])):
+                grow = max(grow, ref.fro(rc[0]))
+        keff = max(keff, ref.fro(A) * grow / nb + 1.0)
+        floor = 1e3 * n * U_ * keff
+        out.label("iterate_growth_floor")
     out.le(site + ":solves within n cycles (backward stable residual)", rr, max(tol * (1 + 1e-6), floor),
-           f"tol={tol:g} ||A|| ||x||/||b||={keff:.2e}")
+           f"tol={tol:g} ||A|| max_c||x_c||/||b||={keff:.2e}")
     if tol > 10 * floor:
         out.true(site + ":converged reported when solved", bool(info.get("converged")),
                  f"residual {rr:.2e} < tol {tol:g} but converged={info.get('converged')}")
